@@ -38,6 +38,7 @@ Section IncludesNoPanic.
   Notation add_libraries := (add_libraries canon is_dir ext_circom).
   Notation add_library := (add_library canon is_dir ext_circom).
   Notation new := (new canon is_dir read_dir join ext_circom).
+  Notation add_files_once := (add_files_once canon is_dir read_dir join ext_circom).
   Notation search_libraries := (search_libraries canon is_file join file_name starts_dot has_sep).
   Notation include_library := (include_library canon is_file join file_name starts_dot has_sep).
   Notation add_include := (add_include canon is_file join file_name starts_dot has_sep).
@@ -60,6 +61,20 @@ Section IncludesNoPanic.
     destruct (is_dir p).
     - destruct (read_dir p) as [names|]; [|apply IH].
       apply bind_no_panic; [apply IHk|]. intros a _. apply IH.
+    - destruct (named || ext_circom p); [|apply IH]. destruct (canon p); apply IH.
+  Qed.
+
+  Lemma add_files_once_no_panic fuel : forall named paths dirs acc, no_panic (add_files_once fuel named paths dirs acc).
+  Proof.
+    induction fuel as [|k IHk]; intros named; [intros paths dirs acc s; by destruct paths|].
+    induction paths as [|p rest IH]; intros dirs acc; [done|].
+    rewrite add_files_once_unfold.
+    destruct (is_dir p).
+    - destruct (canon p).
+      + destruct (decide _); [apply IH|]. destruct (read_dir p) as [names|]; [|apply IH].
+        apply bind_no_panic; [apply IHk|]. intros a _. apply IH.
+      + destruct (read_dir p) as [names|]; [|apply IH].
+        apply bind_no_panic; [apply IHk|]. intros a _. apply IH.
     - destruct (named || ext_circom p); [|apply IH]. destruct (canon p); apply IH.
   Qed.
 
@@ -174,8 +189,8 @@ Section IncludesNoPanic.
     unfold Includes.parse_files, Includes.new.
     pose proof (add_libraries_named libs []) as Hl.
     destruct (add_libraries libs []) as [ls reps]. simpl in Hl.
-    pose proof (add_files_no_panic dfuel true paths ([], reps)) as Hf.
-    destruct (add_files dfuel true paths ([], reps)) as [r| | |] eqn:E; simpl; try done.
+    pose proof (add_files_once_no_panic dfuel true paths ([], false) ([], reps)) as Hf.
+    destruct (add_files_once dfuel true paths ([], false) ([], reps)) as [r| | |] eqn:E; simpl; try done.
     - by apply parse_loop_no_panic.
     - by destruct (Hf site).
   Qed.
